@@ -13,7 +13,9 @@ Proof. unfold mrun. apply fold_left_app. Qed.
 
 Lemma pkt_eqb_refl p : pkt_eqb p p = true.
 Proof.
-  destruct p as [n d|o|c]; cbn [pkt_eqb].
+  assert (R0: forall s, str_eqb s s = true).
+  { induction s as [|y s IHs]; cbn; [reflexivity|]. now rewrite N.eqb_refl. }
+  destruct p as [n d|o|c|r]; cbn [pkt_eqb]; [| | |apply R0].
   - rewrite N.eqb_refl. cbn. induction d as [|x d IH]; cbn; [reflexivity|]. now rewrite N.eqb_refl.
   - induction o as [|[k x] o IH]; [reflexivity|].
     assert (R: forall s, str_eqb s s = true).
